@@ -188,6 +188,8 @@ def parse_output(out):
             r["failed_checks"].append({"description": desc, "location": loc})
         if "CBMC timed out" in line:
             r["timed_out"] = True
+        if "run out of memory" in line:
+            r["oom"] = True
         if "CBMC failed" in line or "out of memory" in line.lower():
             r["cbmc_failed"] = True
         m = TIME_RE.search(line)
@@ -210,7 +212,7 @@ def kani_cmd(crate, harnesses, timeout_s, jobs, flags="", extra=()):
         cmd += ["--harness", h]
     cmd += list(extra)
     if flags == "alloc":
-        cmd += ["--cbmc-args", "--object-bits", "40", "--malloc-fail-assert", "--max-malloc-size", str(1 << 23)]
+        cmd += ["--cbmc-args", "--object-bits", "40", "--malloc-fail-assert"]
     return cmd
 
 
@@ -221,6 +223,8 @@ def classify(unit, r):
         return "undecided", "no result (harness not built or not run)"
     if r.get("timed_out"):
         return "undecided", "solver timeout"
+    if r.get("oom"):
+        return "undecided", "solver ran out of memory"
     st = r.get("status")
     if unit.known:
         # witness harness of a recorded finding: its cover says whether the finding is present
@@ -276,11 +280,14 @@ def run_units(units, tier, jobs=16, use_cache=True, log=None):
         tmo = max(u.timeout for u, _ in items)
         if tier == "thorough":
             tmo = max(tmo, 900)
+        if os.environ.get("VERIF_TIMEOUT_CAP"):
+            tmo = min(tmo, int(os.environ["VERIF_TIMEOUT_CAP"]))
         cmd = kani_cmd(crate, [u.fq for u, _ in items], tmo, jobs, flags)
         # overall guard: every harness could run sequentially in the worst case, cap generously
         overall = 900 + tmo * (1 + len(items) // max(1, jobs // 2))
         t0 = time.time()
-        rc, out, wall = run(cmd, cwd=REPO, timeout=overall)
+        tee = os.path.join(CACHE, "logs", f"kani-{crate}-{flags or 'std'}-{int(t0)}.log")
+        rc, out, wall = run(cmd, cwd=REPO, timeout=overall, tee=tee)
         if log is not None:
             log.append({"cmd": " ".join(shlex.quote(c) for c in cmd), "rc": rc, "wall_s": round(wall, 1)})
         build_failed = ("error: could not compile" in out) or ("error[E" in out and "Checking harness" not in out)
